@@ -23,7 +23,7 @@ ID = "C19"
 LEVEL = "fault_enumeration"
 RULE = (
     "histories = (nesting of up to 3 contexts drawn from {pool close, pool no-close+prior, pool close+prior, auto_checkpoint file1 every=1, "
-    "auto_checkpoint file2 every=3}, action in {nothing, sample, fit} at each of the 2D-1 body positions, exception at one position or none, "
+    "auto_checkpoint file2 every=3, auto_checkpoint file1 again with other options}, action in {nothing, sample, fit} at each of the 2D-1 body positions, exception at one position or none, "
     "kind of exception {raise, fault inside the likelihood while sampling}, instance {fresh, already carrying defaults from resume_from_file, real "
     "ThreadPool}); exhaustive for depth <= 2 (quick) / <= 3 with all single-action bodies (thorough), seeded sample beyond. non-trivial = history with "
     "an exception and depth >= 2, or a sampling action inside a pool context; distinct = the history tuple"
@@ -35,7 +35,7 @@ ASSUMPTIONS = [
 REQUIRED_COUNTERS = ["histories", "context_exits_checked", "exceptions_injected", "pool_close_checks", "samples_inside_pool"]
 EXHAUSTIVE = True
 
-CTX = ["Pc", "Pnp", "Pcp", "K1", "K2"]
+CTX = ["Pc", "Pnp", "Pcp", "K1", "K2", "K1b"]  # K1b: the same file as K1 with other options
 ACTIONS = ["n", "s", "f"]
 
 
@@ -166,6 +166,8 @@ def run_history(h, g, counters, viol, t, data, files):
             pool = ThreadPool(1) if inst == "threadpool" else PoolDouble()
             pools[level] = (pool, ctx)
             return a.enable_pool(pool, close_pool=(ctx in ("Pc", "Pcp")), parallelize_prior=(ctx in ("Pnp", "Pcp")))
+        if ctx == "K1b":
+            return a.auto_checkpoint(files["f1"], every=7, save_config=False, save_flow=False)
         return a.auto_checkpoint(files["f1"] if ctx == "K1" else files["f2"], every=1 if ctx == "K1" else 3)
 
     def level_run(level, in_pool):
